@@ -23,6 +23,7 @@ func init() {
 			c03R4(c, "C03.R4")
 			c03R5(c, "C03.R5")
 			c03R6(c, "C03.R6")
+			ruleRollbackUndoesFrees(c, "C03.R7") // "or never, if it is rolled back": an aborted writer leaves no trace in the free list
 		},
 	})
 }
